@@ -451,3 +451,43 @@ M('c08-compare-via-float', 'C08', 'C08.R2', AST, "            return op1 < op2",
 
 B('c08-stdlib-decimal', 'C08', LEX, "    t.value = Decimal(t.value)", "    text = t.value\n    t.value = Decimal(text)")
 B('c08-floor-via-str', 'C08', FUN, "    'floor': lambda *args: Decimal(str(math.floor(*args))),", "    'floor': lambda v: Decimal(math.floor(v)),")
+
+# =============================================================================== C05
+M('c05-timeout-none', 'C05', 'C05.R1', FUN, "REGEX_TIMEOUT = 0.05", "REGEX_TIMEOUT = None")
+M('c05-timeout-dropped-one-site', 'C05', 'C05.R1', FUN, "    return regex.findall(pattern, s, flags=flags, timeout=REGEX_TIMEOUT)", "    return regex.findall(pattern, s, flags=flags)")
+M('c05-timeout-5s', 'C05', 'C05.R1', FUN, "REGEX_TIMEOUT = 0.05", "REGEX_TIMEOUT = 5")
+M('c05-timeout-zero', 'C05', 'C05.R1', FUN, "REGEX_TIMEOUT = 0.05", "REGEX_TIMEOUT = 0")
+M('c05-new-sub-builtin', 'C05', 'C05.R1', FUN, "    'match_all': _match_all,", "    'match_all': _match_all,\n    'sub': lambda s, p, r: regex.sub(p, r, s),")
+M('c05-switch-to-re', 'C05', 'C05.R2', edits=[
+  (FUN, "import regex\n", "import regex\nimport re\n"),
+  (FUN, "    return regex.findall(pattern, s, flags=flags, timeout=REGEX_TIMEOUT)", "    return re.findall(pattern, s, flags=flags)")])
+M('c05-timeout-reassigned', 'C05', 'C05.R1', FUN, "MAX_ARRAY_SIZE = 10000", "MAX_ARRAY_SIZE = 10000\nREGEX_TIMEOUT = REGEX_TIMEOUT * 1000")
+M('c05-raw-regex-entry', 'C05', None, FUN, "    'match_all': _match_all,", "    'match_all': _match_all,\n    'search': regex.search,")
+M('c05-compiled-no-timeout', 'C05', 'C05.R1', FUN, "    return regex.findall(pattern, s, flags=flags, timeout=REGEX_TIMEOUT)", "    return regex.compile(pattern, flags=flags).findall(s)")
+
+B('c05-rename-constant', 'C05', edits=[
+  (FUN, "REGEX_TIMEOUT = 0.05", "MATCH_TIMEOUT_S = 0.05"),
+  (FUN, "    m = regex.search(pattern, s, flags=flags, timeout=REGEX_TIMEOUT)\n    if m is None:\n        return None\n\n    return m.group(0)", "    m = regex.search(pattern, s, flags=flags, timeout=MATCH_TIMEOUT_S)\n    if m is None:\n        return None\n\n    return m.group(0)"),
+  (FUN, "    m = regex.search(pattern, s, flags=flags, timeout=REGEX_TIMEOUT)\n    if m is None:\n        return None\n\n    return [m.group(0), *m.groups()]", "    m = regex.search(pattern, s, flags=flags, timeout=MATCH_TIMEOUT_S)\n    if m is None:\n        return None\n\n    return [m.group(0), *m.groups()]"),
+  (FUN, "    return regex.findall(pattern, s, flags=flags, timeout=REGEX_TIMEOUT)", "    return regex.findall(pattern, s, flags=flags, timeout=MATCH_TIMEOUT_S)")])
+B('c05-literal-timeout', 'C05', FUN, "    return regex.findall(pattern, s, flags=flags, timeout=REGEX_TIMEOUT)", "    return regex.findall(pattern, s, flags=flags, timeout=0.05)")
+B('c05-compiled-with-timeout', 'C05', FUN, "    return regex.findall(pattern, s, flags=flags, timeout=REGEX_TIMEOUT)", "    return regex.compile(pattern, flags=flags).findall(s, timeout=REGEX_TIMEOUT)")
+
+# =============================================================================== C19
+RINT = "        return Decimal(random.randint(int(min_), int(max_)))"
+M('c19-raw-decimal-bounds', 'C19', 'C19.R2', FUN, RINT, "        return Decimal(random.randint(min_, max_))")
+M('c19-bounds-swapped', 'C19', 'C19.R2', FUN, RINT, "        return Decimal(random.randint(int(max_), int(min_)))")
+M('c19-upper-exclusive', 'C19', 'C19.R2', FUN, RINT, "        return Decimal(random.randrange(int(min_), int(max_)))")
+M('c19-upper-plus-one', 'C19', 'C19.R2', FUN, RINT, "        return Decimal(random.randint(int(min_), int(max_) + 1))")
+M('c19-rand0-scaled', 'C19', 'C19.R1', FUN, "        return Decimal(random.random())", "        return Decimal(random.random() * 2)")
+M('c19-rand0-uniform', 'C19', 'C19.R1', FUN, "        return Decimal(random.random())", "        return Decimal(random.uniform(0, 1))")
+M('c19-choice-of-copy-slice', 'C19', 'C19.R1', FUN, "        return random.choice(args[0])", "        return random.choice(args[0][1:])")
+M('c19-choice-index-off', 'C19', 'C19.R1', FUN, "        return random.choice(args[0])", "        return args[0][random.randint(0, len(args[0]))]")
+M('c19-shuffle-in-place', 'C19', 'C19.R3', FUN, "    copied = copy.copy(container)\n    random.shuffle(copied)\n    return copied", "    random.shuffle(container)\n    return container")
+M('c19-shuffle-returns-unshuffled', 'C19', 'C19.R3', FUN, "    copied = copy.copy(container)\n    random.shuffle(copied)\n    return copied", "    copied = copy.copy(container)\n    random.shuffle(copy.copy(container))\n    return copied")
+M('c19-shuffle-drops-first', 'C19', 'C19.R3', FUN, "    copied = copy.copy(container)\n    random.shuffle(copied)\n    return copied", "    copied = container[1:]\n    random.shuffle(copied)\n    return copied")
+
+B('c19-randrange-inclusive', 'C19', FUN, RINT, "        return Decimal(random.randrange(int(min_), int(max_) + 1))")
+B('c19-shuffle-list-copy', 'C19', FUN, "    copied = copy.copy(container)", "    copied = list(container)")
+B('c19-explicit-signature', 'C19', FUN,
+  "def _rand(*args):\n    if len(args) == 0:", "def _rand(*args):\n    n = len(args)\n    if n == 0:")
